@@ -60,6 +60,7 @@ func run(c *core.Ctx, idx int) {
 		o.Coord = func(r *gen.R) float64 { return r.Range(-180, 180) } // 17-digit values
 	}
 	if r.Chance(0.02) {
+		o.BigPath, o.MaxMembers = 0.3, 2 // paths of 63 .. 65537 vertices (documents beyond 4 KiB / 64 KiB / 1 MiB buffers)
 		o.MaxVerts = 1500 // long coordinate lists
 	}
 	k := []int{gen.KPoint, gen.KLineString, gen.KMultiLineString, gen.KPolygon, gen.KMultiPolygon}[r.Intn(5)]
